@@ -460,10 +460,7 @@ class Calls:
             elif z3.is_int_value(sl) and sl.as_long() <= 8:
                 items = [st.seq_read(more.seq, z3.IntVal(i), more.t) for i in range(sl.as_long())]
             else:
-                r = st.fresh(s.t, "app")
-                st.assume(r.len == s.len + more.len)
-                st.notes.append(("abstract", "append of symbolic-length slice: contents unconstrained"))
-                return r
+                return SliceV(s.t, s.len + more.len, SeqCat(s.seq, s.len, more.seq), z3.And(to_bool(s.nil), more.len == 0))
             if not items:
                 return s
             if isinstance(s.seq, SeqLit) and z3.is_int_value(z3.simplify(s.len)) and z3.simplify(s.len).as_long() == len(s.seq.items):
